@@ -57,7 +57,16 @@ def set_literal_names(names):
     LITERAL_NAMES.update(names)
 
 
-def _is_local_name(name):
+_BUILTIN_NAMES = set(dir(_builtins)) | {"self", "cls", "super"}
+
+
+def _is_local_name(name, node=None):
+    """is `name` a local variable / parameter in the module `node` is from?
+    (module-level symbols and imports of *that* module are not)"""
+    mod = getattr(node, "_module", None)
+    if mod is not None:
+        return name not in _BUILTIN_NAMES and name not in mod.symbols \
+            and name not in mod.imports
     return name not in LITERAL_NAMES and not name[:1].isupper()
 
 
@@ -65,11 +74,8 @@ def _m(p, s, b):
     if isinstance(p, ast.Name) and p.id.startswith(_LIT):
         return isinstance(s, ast.Name) and s.id == p.id[len(_LIT):]
     if isinstance(p, ast.Name) and not p.id.startswith((_MV, _MVS)) \
-            and _is_local_name(p.id):
-        if not isinstance(s, ast.Name):
-            return False
-        if _is_local_name(s.id) is False:
-            return False
+            and isinstance(s, ast.Name) and _is_local_name(p.id, s) \
+            and _is_local_name(s.id, s):
         key = "~" + p.id
         if key in b:
             return b[key] == s.id
